@@ -102,6 +102,10 @@ func (s *TCPServices) RemoveService(service string) {
 			delete(item.hosts, hostname)
 			s.changed = true
 		}
+		if _, hasTLS := item.TLS[hostname]; hasTLS {
+			delete(item.TLS, hostname)
+			s.changed = true
+		}
 		if hostname == DefaultHost {
 			item.defaultHost = nil
 			s.changed = true
